@@ -45,6 +45,15 @@ func main() {
 		os.Exit(cmdCheck(os.Args[2:]))
 	case "dump":
 		os.Exit(cmdDump(os.Args[2:]))
+	case "warm":
+		// populate the go build cache (export data of dependencies) and check the contract files parse
+		t0 := time.Now()
+		if _, _, _, err := loadAll("/repo"); err != nil {
+			fmt.Fprintln(os.Stderr, "vcgo warm:", err)
+			os.Exit(2)
+		}
+		fmt.Printf("vcgo warm: loaded /repo in %.1fs\n", time.Since(t0).Seconds())
+		os.Exit(0)
 	default:
 		fmt.Fprintln(os.Stderr, "unknown command", os.Args[1])
 		os.Exit(2)
